@@ -515,6 +515,25 @@ func (p *Producer) opGasTransfer() *transaction.Transaction {
 		to = p.Users[p.R.Intn(len(p.Users))].Hash()
 	}
 	amt := p.amount(50_0000_0000)
+	if p.R.Intn(8) == 0 {
+		// the data argument is something no serializer accepts: a pointer or an
+		// array containing itself (only nodes that log invocations look at it)
+		w := io.NewBufBinWriter()
+		kind := "gas-transfer-pointer-data"
+		if p.R.Intn(2) == 0 {
+			emit.Instruction(w.BinWriter, opcode.PUSHA, []byte{0, 0, 0, 0})
+		} else {
+			kind = "gas-transfer-cyclic-data"
+			emit.Opcodes(w.BinWriter, opcode.NEWARRAY0, opcode.DUP, opcode.DUP, opcode.APPEND)
+		}
+		emit.Int(w.BinWriter, amt)
+		emit.Bytes(w.BinWriter, to.BytesBE())
+		emit.Bytes(w.BinWriter, u.Hash().BytesBE())
+		emit.Int(w.BinWriter, 4)
+		emit.Opcodes(w.BinWriter, opcode.PACK)
+		emit.AppCallNoArgs(w.BinWriter, p.GasH, "transfer", 15)
+		return p.Tx(kind, []neotest.Signer{u.S}, w.Bytes(), -1)
+	}
 	return p.Call("gas-transfer", []neotest.Signer{u.S}, p.GasH, "transfer", u.Hash(), to, amt, nil)
 }
 
